@@ -179,6 +179,14 @@ def evaluate(ctx, lines, harness, driver, st):
         if sum(o["caps"]) == sum(dems):
             st["balanced"] += 1
         st["max_nsrc"] = max(st["max_nsrc"], nsrc)
+        big = max(o["alloc"])
+        st["max_quantity"] = max(st["max_quantity"], big, max(o["caps"]))
+        st["share_ge_2p31"] += big >= 2 ** 31
+        st["share_ge_2p32"] += big >= 2 ** 32
+        st["share_eq_2p31"] += (2 ** 31) in o["alloc"]
+        # a source whose largest share is >= 2^31 and that also sends a positive smaller share elsewhere
+        if any(max(col) >= 2 ** 31 and sum(1 for x in col if x > 0) > 1 for col in (o["alloc"][i::nsrc] for i in range(nsrc))):
+            st["split_source_with_share_ge_2p31"] += 1
         st["nsnk_hist"][nsnk] = st["nsnk_hist"].get(nsnk, 0) + 1
     return impl, model
 
@@ -220,11 +228,12 @@ def gen_cases(ctx, harness):
         nenum += len(g)
         lines += g
     seeds = [ctx.seed] if ctx.quick else [ctx.seed, ctx.seed + 1000, ctx.seed + 2000]
-    nrand, nbig, nflt = (16000, 48, 4000) if ctx.quick else (300000, 900, 60000)
+    nrand, nbig, nflt, nhuge = (16000, 48, 4000, 4000) if ctx.quick else (300000, 900, 60000, 90000)
     for s in seeds:
         lines += common.harness_gen(harness, ["rand", s, nrand // len(seeds)])
         lines += common.harness_gen(harness, ["flt", s, nflt // len(seeds)])
         lines += common.harness_gen(harness, ["big", s, nbig // len(seeds)])
+        lines += common.harness_gen(harness, ["huge", s, nhuge // len(seeds)])
     # a few problems check() must refuse (outside C13; only the outcome kind is compared)
     lines += ["TP 0 2 2 3 0 1 1 0 1 1 0", "TP 0 2 2 3 3 1 -1 0 1 1 0", "TP 1 1 1 0 5 7", "TF 1 2 1 4 4 0 1 3 5"]
     return lines, ncorpus, nenum, doms
@@ -232,7 +241,8 @@ def gen_cases(ctx, harness):
 
 def new_stats():
     return {"n": 0, "skipped": 0, "kinds": {}, "outcomes": {}, "outside": 0, "mism": [], "ofail": [], "certified": 0, "same_matrix": 0,
-            "same_assign": 0, "nontriv": set(), "split": 0, "balanced": 0, "max_nsrc": 0, "nsnk_hist": {}}
+            "same_assign": 0, "nontriv": set(), "split": 0, "balanced": 0, "max_nsrc": 0, "nsnk_hist": {},
+            "max_quantity": 0, "share_ge_2p31": 0, "share_ge_2p32": 0, "share_eq_2p31": 0, "split_source_with_share_ge_2p31": 0}
 
 
 def run(ctx):
@@ -267,13 +277,22 @@ def run(ctx):
         "rule": "exhaustive: every problem with (sinks, sources, max capacity, max demand, max cost) in %s, capacities/demands >= 1, costs >= 0, "
                 "total demand <= total capacity; random (seeded splitmix64): 1..16 sinks, 1..60 sources (big stream: 100..1500), demands up to 10^6 "
                 "(max demand / min capacity <= 250), costs uniform / mostly zero / Manhattan grid / per-sink offsets / two-valued up to 10^6, exactly "
-                "balanced, with slack, and through increaseCapacity() with short capacities; float stream: costs num/den as float distances, the "
+                "balanced, with slack, and through increaseCapacity() with short capacities; large-quantity stream (DemandType is 64-bit): "
+                "(a) small problems (1..10 sinks, 1..24 sources, demands 1..500 units, max demand / min capacity <= 250) scaled by a granule G in "
+                "{2^31, 2^32, 2^31-1, 2^31+1, 2^32+10, 2^33+5, 3*2^30, 2^29.., random 2^24..2^33} so that quantities reach 2^41 and every share is a "
+                "multiple of G, (b) 1..3 independent blocks of one source spilling over 1..4 private sinks with main shares at 2^31, 2^31+-1, "
+                "2^32, 2^32+-1, 2^32+10, 2^33+5, 3*2^31, 3*2^32+5, 2^34-1 or (1..64)*2^31 with low words 0 / ffffffff / 80000000 / random, remainders "
+                "0/3/20/whole small sinks of 5, 7, 20, 35, 1000, 2^31-1, 2^31 (e.g. 2^32+30 split 2^32+10 / 20; a share of exactly 2^31), sinks shuffled; "
+                "costs <= 1000 there so that every total is < 2^62; float stream: costs num/den as float distances, the "
                 "C++'s own scaled integer costs() are read back and given to the model. non-trivial = capacities bind: the optimum exceeds the cost "
                 "of sending every source to its cheapest sink; distinct = distinct case lines" % (doms,),
         "exhaustive": True, "exhaustive_cases": nenum, "corpus_cases": ncorpus,
         "samples": [lines[ncorpus], lines[ncorpus + nenum + 1][:400], lines[-5][:400]],
         "distribution": {"streams": st["kinds"], "implementation_outcomes": st["outcomes"], "outside_domain_refusals": st["outside"],
                          "sinks_histogram": st["nsnk_hist"], "max_sources": st["max_nsrc"], "plans_with_split_sources": st["split"],
+                         "max_quantity_in_a_plan": st["max_quantity"], "plans_with_a_share_ge_2^31": st["share_ge_2p31"],
+                         "plans_with_a_share_ge_2^32": st["share_ge_2p32"], "plans_with_a_share_of_exactly_2^31": st["share_eq_2p31"],
+                         "plans_with_a_split_source_whose_main_share_is_ge_2^31": st["split_source_with_share_ge_2p31"],
                          "exactly_balanced": st["balanced"]},
         "impl_plans_certified_optimal_by_proved_checker": st["certified"],
         "impl_matrix_identical_to_model (statistic)": st["same_matrix"],
